@@ -362,7 +362,9 @@ PROPS = {
                        "with the lz_pos bias so that 31-bit renormalisation happens inside real encodes, on plain Vec tables "
                        "in the non-optimization builds), the valid decode of each result, four seeded corruptions of each "
                        "result, 1500 tiny LZMA2 chunks whose range-coder data ends inside a direct-bits run, 4000 "
-                       "normalisation kernel runs (dispatch and scalar against the specification max(p-off,0), every slice "
+                       "normalisation kernel runs (dispatch, scalar and - through a direct accessor hook, because the "
+                       "dispatcher prefers AVX2 on this host - the SSE4.1 twin against the specification max(p-off,0), nothing "
+                       "written outside the slice, every slice "
                        "alignment 0..15, lengths 0..70, values around the offset / 0 / i32::MAX) and 3000 decode_direct_bits "
                        "runs on caller-supplied state incl. runs past the end of the buffer. Each line records hash of the "
                        "compressed bytes, or bytes decoded + hash + Ok/error kind in a common vocabulary. The checker demands "
@@ -570,6 +572,7 @@ def check_c14(p, prop, tier, seed, cfg):
     viol = {}
     samples = []
     nspec = {}
+    sse41_runs = {}
     roundtrip_fail = 0
     for sh in range(nsh):
         base_lines = [l.rstrip("\n") for l in open(results[(base, sh)][1]) if not l.startswith("#")]
@@ -584,6 +587,8 @@ def check_c14(p, prop, tier, seed, cfg):
                 if l.startswith("NSPEC"):
                     m = l.split()
                     cnt = int(m[2].split("=")[1])
+                    if m[1] == "sse41" and len(m) > 3 and m[3].startswith("runs="):
+                        sse41_runs[name] = sse41_runs.get(name, 0) + int(m[3].split("=")[1])
                     if cnt:
                         nspec.setdefault((name, m[1]), l)
             if name == base:
@@ -608,6 +613,7 @@ def check_c14(p, prop, tier, seed, cfg):
     v.extra["x_lines_compared_per_kind"] = per_kind
     v.extra["x_configurations"] = [f"{n} (features: {f or 'none'} + encoder,xz,lzip)" for n, f in TX_VARIANTS]
     v.extra["x_roundtrip_failures_in_baseline_transcript"] = roundtrip_fail
+    v.extra["x_sse41_kernel_runs_against_specification"] = sse41_runs
     for sig, items in viol.items():
         v.violations.append({"sig": sig, "detail": items[0][:600], "desc": f"{len(items)} differing line(s); first shown", "cell": "transcript",
                              "variant": "tx", "idx": -1})
